@@ -42,6 +42,9 @@ def gen_case(seed, tier):
         "depth": cfg.choice(DEPTHS),
         "edge": cfg.choice(["pos", "pos", "neg"]),
     }
+    if tier == "thorough" and cfg.random() < 0.25:
+        config["depth"] = cfg.choice([31, 32, 33, 64, 65])
+        config["width"] = cfg.choice([1, 8, 16, 32])
     if cfg.random() < 0.3:   # bias to small parameters, where walks saturate the state graph
         config["depth"] = cfg.choice([1, 2, 3, 4])
         config["width"] = cfg.choice([0, 1, 2])
